@@ -833,7 +833,7 @@ def run(ctx):
              'depth >= 2, a dependency, a text that needs quoting, a custom attribute',
         samples=[brief(cases[first_gen], obs[first_gen]), brief(cases[first_gen + n_round], obs[first_gen + n_round]),
                  brief(cases[-1], obs[-1])],
-        distribution=dist,
+        distribution=dict(dist, files_read_again_with_another_spelling_of_the_encoding=sum(1 for o in obs if 'enc_diffs' in o)),
         traces_validated_against_impl=len(cases),
         layout_extracted_from_repo={k: layout.get(k) for k in SPEC_LAYOUT},
         domain_predicate='WbsSpec.wbs_ok_b (sound for the hypothesis wbs_ok of C13_rebuild/C13_roundtrip/C13_fix) evaluated in Coq on the WBS of '
